@@ -5,6 +5,7 @@ import (
 	"fmt"
 	"os"
 	"os/exec"
+	"runtime/debug"
 	"sort"
 	"strings"
 	"sync"
@@ -23,6 +24,10 @@ import (
 // instrumented kvql build (set by c19_instr.go under build tag verifinstr;
 // nil in the plain build: storage-call granularity only).
 var c19SetHook func(h func(name string, write bool, site string))
+
+// c19SetHeapHook installs the heap-write hook of the instrumented kvql (every
+// assignment through a pointer, field, slice element or map element).
+var c19SetHeapHook func(h func(addr uintptr, site string))
 
 type C19Thread struct {
 	Stmts []string `json:"stmts"`
@@ -179,7 +184,7 @@ func (c19) Info() core.Info {
 		Title: "Independent statements can run concurrently without races or interference",
 		Level: "model_checking",
 		Rule: "12 scenarios (each in three iteration-mode assignments: mixed, all row, all batch) of 2..3 statement threads chosen so that the threads meet on every piece of library-wide state (function and aggregate registries, batch size, cache switch, error padding, name tables) and on shared storage (readers with a put and a delete on disjoint key ranges); each thread parses, plans, executes and renders on its own goroutine under a cooperative scheduler whose scheduling points are every Storage/Cursor call and every access to a package-level variable (instrumented at check time into a build overlay); ALL schedules with at most 2 (thorough: 3) preemptions are explored depth-first (iterative context bounding). " +
-			"Oracle on every schedule: each thread's rows / errors / rendered messages equal its solo run and the final stores equal a sequential run; conflict monitor: no package-level variable is written by one thread and accessed by another (kvql has no synchronisation, so such a pair is a data race); no panic. A supporting, free-running pass of the same bodies under the Go race detector (not the deciding step) looks for unsynchronised heap sharing the scheduler cannot see. Non-trivial: schedules that switch between live threads. Distinct: (scenario, schedule).",
+			"Oracle on every schedule: each thread's rows / errors / rendered messages equal its solo run and the final stores equal a sequential run; conflict monitor: no package-level variable is written by one thread and accessed by another (kvql has no synchronisation, so such a pair is a data race), and - heap-write monitor, instrumented the same way at every assignment through a pointer, field, slice element or map element of the library, with the collector off during an execution - no heap object is written by two different statement threads within one execution; no panic. A supporting, free-running pass of the same bodies under the Go race detector (not the deciding step) looks for unsynchronised heap sharing the scheduler cannot see. Non-trivial: schedules that switch between live threads. Distinct: (scenario, schedule).",
 		Assumptions: []string{
 			"the storage is thread-safe (the cooperative scheduler switches only at storage-call boundaries; the free-running pass uses a mutex-protected store)",
 			"memory-model effects below the granularity of scheduling points are outside what a cooperative scheduler decides; the race-detector pass is sampled, supporting evidence",
@@ -234,13 +239,20 @@ func (m *c19Monitor) conflicts() []string {
 
 // c19Execute runs one schedule of a scenario.
 type c19Obs struct {
-	results   []string
-	stores    []string
-	conflicts []string
-	panics    []string
-	points    int
-	labels    string
-	varPoints int
+	results       []string
+	stores        []string
+	conflicts     []string
+	panics        []string
+	points        int
+	labels        string
+	varPoints     int
+	heapWrites    int
+	heapConflicts []string
+}
+
+type c19HeapW struct {
+	tid  int
+	site string
 }
 
 func newC19Monitor() *c19Monitor {
@@ -307,6 +319,37 @@ func c19Execute(sc C19Scenario, prefix []int, mon *c19Monitor) (*sched.Exec, *c1
 		})
 		defer c19SetHook(nil)
 	}
+	if c19SetHeapHook != nil {
+		// Heap-write monitor, per execution: an address written by two
+		// different statement threads is memory shared between statements
+		// (kvql has no synchronisation, so that is a data race). The collector
+		// is off during the execution so that no address is recycled.
+		heap := map[uintptr]c19HeapW{}
+		seenConf := map[string]bool{}
+		old := debug.SetGCPercent(-1)
+		defer debug.SetGCPercent(old)
+		c19SetHeapHook(func(addr uintptr, site string) {
+			if holder.e == nil || holder.e.Cur() < 0 {
+				return
+			}
+			obs.heapWrites++
+			tid := holder.e.Cur()
+			if w, ok := heap[addr]; !ok {
+				heap[addr] = c19HeapW{tid, site}
+			} else if w.tid != tid {
+				a, b := w, c19HeapW{tid, site}
+				if a.tid > b.tid {
+					a, b = b, a
+				}
+				k := fmt.Sprintf("heap object written by thread %d at %s and by thread %d at %s", a.tid, a.site, b.tid, b.site)
+				if !seenConf[k] {
+					seenConf[k] = true
+					obs.heapConflicts = append(obs.heapConflicts, k)
+				}
+			}
+		})
+		defer c19SetHeapHook(nil)
+	}
 	wrapped := make([]func(e *sched.Exec, id int), len(bodies))
 	for i := range bodies {
 		b := bodies[i]
@@ -324,6 +367,7 @@ func c19Execute(sc C19Scenario, prefix []int, mon *c19Monitor) (*sched.Exec, *c1
 		obs.stores = append(obs.stores, s.Canon())
 	}
 	obs.conflicts = mon.conflicts()
+	sort.Strings(obs.heapConflicts)
 	obs.panics = ex.Panics
 	obs.points = len(ex.Points)
 	var lb strings.Builder
@@ -346,6 +390,9 @@ func c19Judge(sc C19Scenario, solo, seq []string, obs *c19Obs, c *c19Case) *core
 		// (when the library itself uses sync / atomic an access pair may be
 		// ordered; then only the race-detector pass and the result comparison decide)
 		return mk("conflict-monitor", "package-variable-race:"+strings.SplitN(obs.conflicts[0], " ", 2)[0], "no package-level variable written by one thread and accessed by another", strings.Join(obs.conflicts, " ; "))
+	}
+	if len(obs.heapConflicts) > 0 && os.Getenv("VERIF_C19_SYNC") != "1" {
+		return mk("conflict-monitor", "shared-heap-write:"+obs.heapConflicts[0], "no heap object written by two statement threads", strings.Join(obs.heapConflicts, " ; "))
 	}
 	for i := range solo {
 		if obs.results[i] != solo[i] {
@@ -386,7 +433,7 @@ func (c19) RunUnit(t core.Tier, u int, r *core.Reporter) {
 	r.Max("max_instrumented_build", instr)
 	stopped := false
 	// explicit DFS (needs the observation of each execution, so it is driven here)
-	var nSched, nConc, nPoints, varPts int64
+	var nSched, nConc, nPoints, varPts, heapW int64
 	maxPre := 0
 	var rec func(prefix []int, depth int)
 	rec = func(prefix []int, depth int) {
@@ -413,6 +460,7 @@ func (c19) RunUnit(t core.Tier, u int, r *core.Reporter) {
 		nSched++
 		nPoints += int64(len(ex.Points))
 		varPts += int64(obs.varPoints)
+		heapW += int64(obs.heapWrites)
 		pre := 0
 		for _, p := range ex.Points {
 			if p.RunningEnabled && p.Chosen != 0 {
@@ -461,6 +509,7 @@ func (c19) RunUnit(t core.Tier, u int, r *core.Reporter) {
 	r.Count("transitions", nPoints)
 	r.Count("schedules_with_preemption", nConc)
 	r.Count("package_variable_access_points", varPts)
+	r.Count("heap_writes_monitored", heapW)
 	r.Max("max_preemptions_completed", int64(maxPre))
 }
 
